@@ -149,16 +149,18 @@ impl Machine {
                 m.ctx = Ctx10::Ent(Ent::Slice(m.slices - 1));
             }
             Sym::T0 | Sym::T1 | Sym::T2 | Sym::T300 => {
-                if m.frame != 0 || m.tags.is_some() {
+                if m.frame != 0 {
                     return None;
                 }
-                m.tags = Some(match s {
+                // a further tags chunk appends its tags; records that follow it go to ITS tags in order
+                let start = m.tags.unwrap_or(0);
+                m.tags = Some(start + match s {
                     Sym::T0 => 0,
                     Sym::T1 => 1,
                     Sym::T300 => 300,
                     _ => 2,
                 });
-                m.ctx = Ctx10::Tag(0);
+                m.ctx = Ctx10::Tag(start);
             }
             Sym::P4 | Sym::P11 => {
                 m.ctx = Ctx10::Ent(Ent::Sprite);
@@ -210,6 +212,7 @@ impl Machine {
         let mut layers = 0usize;
         let mut cels: Vec<Vec<u16>> = vec![vec![]; frames_n];
         let mut slices = 0;
+        let mut tags_emitted = 0usize;
         for (pos, s) in self.seq.iter().enumerate() {
             let chunk = match s {
                 Sym::L => {
@@ -233,7 +236,9 @@ impl Machine {
                         Sym::T300 => 300,
                         _ => 2,
                     };
-                    Some(ChunkSpec::Tags { tags: (0..n).map(|k| TagM { from: 0, to: 0, dir: 0, repeat: 0, color: 0, name: format!("T{}", k), ud: None }).collect(), reserved: [0; 8], tag_reserved: [0; 6] })
+                    let first = tags_emitted;
+                    tags_emitted += n;
+                    Some(ChunkSpec::Tags { tags: (first..first + n).map(|k| TagM { from: (k % 7) as u16, to: (k % 7) as u16, dir: 0, repeat: 0, color: 0, name: format!("T{}", k), ud: None }).collect(), reserved: [0; 8], tag_reserved: [0; 6] })
                 }
                 Sym::P4 => Some(ChunkSpec::OldPalette { kind: 4, packets: vec![(0, vec![[1, 2, 3], [4, 5, 6]])] }),
                 Sym::P11 => Some(ChunkSpec::OldPalette { kind: 0x11, packets: vec![(0, vec![[1, 2, 3], [63, 0, 31]])] }),
@@ -314,6 +319,9 @@ impl Machine {
             return (n, mk("structure|tags".into(), format!("{} tags, program has {:?}", ase.num_tags(), self.tags)));
         }
         for t in 0..ase.num_tags() {
+            if ase.tag(t).name() != format!("T{}", t) {
+                return (n, mk("structure|tag-order".into(), format!("tag {} is named {:?}: the tags of successive tags chunks must appear in file order", t, ase.tag(t).name())));
+            }
             if let Some(v) = cmp(format!("tag {}", t), "tag", crate::observe::ud_v(ase.tag(t).user_data()), Ent::Tag(t as usize)) {
                 return (n, Some(v));
             }
